@@ -227,6 +227,36 @@ func (h *SrvH) Connect(c int) error {
 	return nil
 }
 
+// ConnectDetached opens a Modify RPC that is not registered in the harness's session table (so
+// that it can be driven from another goroutine while the numbered sessions are in use).
+func (h *SrvH) ConnectDetached() (*fakeModify, error) {
+	f := &fakeModify{ctx: context.Background(), in: make(chan *spb.ModifyRequest), ready: make(chan struct{}, 1), done: make(chan error, 1), failSendAfter: -1}
+	gidc := make(chan string, 1)
+	go func() { gidc <- curGoroutineID(); f.done <- h.S.Modify(f) }()
+	f.gid = <-gidc
+	select {
+	case <-f.ready:
+	case err := <-f.done:
+		return nil, fmt.Errorf("Modify returned at once: %v", err)
+	case <-time.After(stepTimeout):
+		return nil, errors.New("Modify did not start reading")
+	}
+	return f, nil
+}
+
+// SendOn delivers m on a detached stream and waits until the server has dealt with it.
+func (h *SrvH) SendOn(f *fakeModify, m *spb.ModifyRequest) MsgOutcome {
+	select {
+	case f.in <- m:
+	case err := <-f.done:
+		f.ended = true
+		return MsgOutcome{Ended: true, Err: err}
+	case <-time.After(stepTimeout):
+		return MsgOutcome{Hang: true}
+	}
+	return h.await(f)
+}
+
 // Outcome of one message.
 type MsgOutcome struct {
 	Resps []*spb.ModifyResponse
@@ -407,6 +437,10 @@ type fakeGet struct {
 	mu        sync.Mutex
 	out       []*spb.GetResponse
 	failAfter int // >=0: Send fails from that many sends on
+	// pauseAfter >= 0: the Send with that index blocks until resume is closed (a slow reader)
+	pauseAfter int
+	resume     chan struct{}
+	paused     chan struct{}
 }
 
 func (f *fakeGet) Context() context.Context { return f.ctx }
@@ -415,6 +449,16 @@ func (f *fakeGet) Send(m *spb.GetResponse) error {
 	defer f.mu.Unlock()
 	if f.failAfter >= 0 && len(f.out) >= f.failAfter {
 		return errors.New("transport is closing")
+	}
+	if f.resume != nil && len(f.out) == f.pauseAfter {
+		f.mu.Unlock()
+		select {
+		case <-f.paused:
+		default:
+			close(f.paused)
+		}
+		<-f.resume
+		f.mu.Lock()
 	}
 	f.out = append(f.out, m)
 	return nil
@@ -425,7 +469,7 @@ func (f *fakeGet) SetTrailer(metadata.MD)       {}
 
 // Get runs the Get RPC; failAfter < 0 = read to the end.
 func (h *SrvH) Get(req *spb.GetRequest, failAfter int) ([]*spb.GetResponse, error, bool) {
-	f := &fakeGet{ctx: context.Background(), failAfter: failAfter}
+	f := &fakeGet{ctx: context.Background(), failAfter: failAfter, pauseAfter: -1}
 	done := make(chan error, 1)
 	go func() { done <- h.S.Get(req, f) }()
 	select {
@@ -435,6 +479,32 @@ func (h *SrvH) Get(req *spb.GetRequest, failAfter int) ([]*spb.GetResponse, erro
 		return f.out, err, false
 	case <-time.After(stepTimeout):
 		return nil, nil, true
+	}
+}
+
+// GetPaused starts a Get whose reader stalls after `after` responses. It returns once the reader
+// is stalled (or the Get has ended); resume() lets it continue and returns its responses.
+func (h *SrvH) GetPaused(req *spb.GetRequest, after int) (stalled bool, resume func() ([]*spb.GetResponse, error, bool)) {
+	f := &fakeGet{ctx: context.Background(), failAfter: -1, pauseAfter: after, resume: make(chan struct{}), paused: make(chan struct{})}
+	done := make(chan error, 1)
+	go func() { done <- h.S.Get(req, f) }()
+	select {
+	case <-f.paused:
+		stalled = true
+	case err := <-done:
+		done <- err
+	case <-time.After(stepTimeout):
+	}
+	return stalled, func() ([]*spb.GetResponse, error, bool) {
+		close(f.resume)
+		select {
+		case err := <-done:
+			f.mu.Lock()
+			defer f.mu.Unlock()
+			return f.out, err, false
+		case <-time.After(stepTimeout):
+			return nil, nil, true
+		}
 	}
 }
 
